@@ -225,6 +225,12 @@ def build(cfg, values=None):
         ts = [w.V('t_%d' % (0 if uniform else k)) for k in range(N)]
         kinds = ['base'] * N
         if variant == 'oracle':
+            if cfg.get('after_other_calls'):
+                # earlier calls in the same process with OTHER plies (more of them, another thickness and material), in both
+                # argument forms: the laminate under test must not depend on them
+                pa, _ = expand_prop(w, 50, form)
+                run_stack(w, ['base'] * (N + 1), [w.V('t_50')] * (N + 1), [pa] * (N + 1), w.V('d_50'), uniform=True)
+                run_stack(w, ['base'] * (N + 1), [w.V('t_50')] * (N + 1), [pa] * (N + 1), w.V('d_50'), uniform=False)
             lam = run_stack(w, kinds, ts, tup, d, uniform=uniform)
             plies = [w.base(k) + (ts[k],) + tuple(Sym.lift(x) for x in full[k]) for k in range(N)]
             A, B, D, Es, ttot = oracle_ABDE(plies, d)
@@ -360,6 +366,8 @@ def configs(tier, seed):
                 continue
             out.append({'N': N, 'form': form, 'variant': 'oracle', 'group': 'ABDE-vs-integral:N=%d' % N, 'timeout_ms': 240000})
         out.append({'N': N, 'form': 6, 'variant': 'oracle', 'uniform': True, 'group': 'ABDE-vs-integral-uniform-args:N=%d' % N})
+        out.append({'N': N, 'form': 6, 'variant': 'oracle', 'uniform': True, 'after_other_calls': True, 'group': 'ABDE-vs-integral-uniform-args-after-other-calls:N=%d' % N})
+        out.append({'N': N, 'form': 6, 'variant': 'oracle', 'after_other_calls': True, 'group': 'ABDE-vs-integral-after-other-calls:N=%d' % N})
         out.append({'N': N, 'form': 6, 'variant': 'symmetry', 'group': 'symmetric:N=%d' % N})
         out.append({'N': N, 'form': 6, 'variant': 'shift', 'group': 'reference-shift:N=%d' % N})
         out.append({'N': N, 'form': 6, 'variant': 'mirror', 'group': 'mirror-angles:N=%d' % N})
